@@ -66,9 +66,8 @@ Section Ref.
     bind (w_iter fuel (o_next O it)
             (fun path (st : bool * list X) =>
                let '(flag, acc) := st in
-               if negb (T =? -1) then
-                 bind (o_now O) (fun t => if T <? t - start then ret (CBreak, (true, acc)) else ret (CNext, (flag, acc ++ [path])))
-               else ret (CNext, (flag, acc ++ [path])))
+               if T =? -1 then ret (CNext, (flag, acc ++ [path]))
+               else bind (o_now O) (fun t => if T <? t - start then ret (CBreak, (true, acc)) else ret (CNext, (flag, acc ++ [path]))))
             (flag, acc))
          (fun r => let '(flag, acc) := r in ret (flag, acc)))).
 
